@@ -17,7 +17,7 @@ const STYLES: [Style; 4] = [Style::Commented, Style::Spaced, Style::LeadingComme
 
 fn world(bytes: &[u8]) -> (World, Src<'_>) {
     let mut s = Src::new(bytes);
-    let cfg = GenCfg { max_decls: 6, budget: 200, max_depth: 5, ..GenCfg::default() };
+    let cfg = GenCfg { max_decls: 6, budget: 200, max_depth: 5, predef_shadow_16: 1, ..GenCfg::default() };
     let w = nav::build_world(&mut s, &cfg, &STYLES);
     (w, s)
 }
